@@ -1568,6 +1568,20 @@ var binops = map[string]binOpFunc{
 	"+>":      rel.NewAddArrowExpr,
 }
 
+// setCompare makes a subset-style comparison that fails, instead of crashing,
+// when an operand is not a set.
+func setCompare(op string, f func(a, b rel.Value) bool) rel.CompareFunc {
+	return func(a, b rel.Value) (bool, error) {
+		if _, is := a.(rel.Set); !is {
+			return false, fmt.Errorf("%s lhs not a set: %v", op, a)
+		}
+		if _, is := b.(rel.Set); !is {
+			return false, fmt.Errorf("%s rhs not a set: %v", op, b)
+		}
+		return f(a, b), nil
+	}
+}
+
 var compareOps = map[string]rel.CompareFunc{
 	"<:": func(a, b rel.Value) (bool, error) {
 		set, is := b.(rel.Set)
@@ -1590,17 +1604,17 @@ var compareOps = map[string]rel.CompareFunc{
 	"<=": func(a, b rel.Value) (bool, error) { return !b.Less(a), nil },
 	">=": func(a, b rel.Value) (bool, error) { return !a.Less(b), nil },
 
-	"(<)":   func(a, b rel.Value) (bool, error) { return subset(a, b), nil },
-	"(>)":   func(a, b rel.Value) (bool, error) { return subset(b, a), nil },
-	"(<=)":  func(a, b rel.Value) (bool, error) { return subsetOrEqual(a, b), nil },
-	"(>=)":  func(a, b rel.Value) (bool, error) { return subsetOrEqual(b, a), nil },
-	"(<>)":  func(a, b rel.Value) (bool, error) { return subsetOrSuperset(a, b), nil },
-	"(<>=)": func(a, b rel.Value) (bool, error) { return subsetSupersetOrEqual(b, a), nil },
+	"(<)":   setCompare("(<)", func(a, b rel.Value) bool { return subset(a, b) }),
+	"(>)":   setCompare("(>)", func(a, b rel.Value) bool { return subset(b, a) }),
+	"(<=)":  setCompare("(<=)", func(a, b rel.Value) bool { return subsetOrEqual(a, b) }),
+	"(>=)":  setCompare("(>=)", func(a, b rel.Value) bool { return subsetOrEqual(b, a) }),
+	"(<>)":  setCompare("(<>)", func(a, b rel.Value) bool { return subsetOrSuperset(a, b) }),
+	"(<>=)": setCompare("(<>=)", func(a, b rel.Value) bool { return subsetSupersetOrEqual(b, a) }),
 
-	"!(<)":   func(a, b rel.Value) (bool, error) { return !subset(a, b), nil },
-	"!(>)":   func(a, b rel.Value) (bool, error) { return !subset(b, a), nil },
-	"!(<=)":  func(a, b rel.Value) (bool, error) { return !subsetOrEqual(a, b), nil },
-	"!(>=)":  func(a, b rel.Value) (bool, error) { return !subsetOrEqual(b, a), nil },
-	"!(<>)":  func(a, b rel.Value) (bool, error) { return !subsetOrSuperset(a, b), nil },
-	"!(<>=)": func(a, b rel.Value) (bool, error) { return !subsetSupersetOrEqual(b, a), nil },
+	"!(<)":   setCompare("!(<)", func(a, b rel.Value) bool { return !subset(a, b) }),
+	"!(>)":   setCompare("!(>)", func(a, b rel.Value) bool { return !subset(b, a) }),
+	"!(<=)":  setCompare("!(<=)", func(a, b rel.Value) bool { return !subsetOrEqual(a, b) }),
+	"!(>=)":  setCompare("!(>=)", func(a, b rel.Value) bool { return !subsetOrEqual(b, a) }),
+	"!(<>)":  setCompare("!(<>)", func(a, b rel.Value) bool { return !subsetOrSuperset(a, b) }),
+	"!(<>=)": setCompare("!(<>=)", func(a, b rel.Value) bool { return !subsetSupersetOrEqual(b, a) }),
 }
